@@ -52,8 +52,15 @@ def reader(ctx, p, f):
     for rd in reads:
         a = kids(rd)[1:]
         buf = _unbool(a[0])
+        if not (buf.get('ref') or {}).get('n'):
+            # read(reinterpret_cast<char*>(buffer), n): the buffer behind the cast
+            refs_ = [x for x in walk(a[0]) if x['k'] == 'DeclRefExpr' and (x.get('ref') or {}).get('k') == 'Local']
+            if len(refs_) == 1:
+                buf = refs_[0]
         bufname = buf.get('ref', {}).get('n')
         bid = buf.get('ref', {}).get('id')
+        if bufname is None:
+            raise AnalysisBroken('C19: the destination of istream::read at %s is not a local buffer the rule can name' % f.loc(rd))
         bd = decl(f, bufname)
         size = const_of(strip_casts(a[1]))
         dims = None
@@ -94,8 +101,7 @@ def reader(ctx, p, f):
         loops = [a for a in f.ancestors(pb[0]) if a['k'] in ('WhileStmt', 'ForStmt', 'DoStmt')]
         g = facts_atoms(f, guard_facts(f, pb[0]))
         only_read = all('read(' in str(a) or 'stream' in str(a) for a in g)
-        okp = len(loops) == 1 and only_read and cn(f, pb[0]).replace('this.', '').startswith(('_hashmap[key].push_back(make_pair(move,weight))',
-                                                                                            '_hashmap[key].emplace_back(move,weight)'))
+        okp = len(loops) == 1 and only_read and cn(f, pb[0]).replace('this.', '').startswith(('_hashmap[key].push_back(make_pair(', '_hashmap[key].emplace_back('))
         # nothing else adds records
     others = [n for n, c, nm in f.calls() if short(nm) in ('push_back', 'emplace_back', 'insert', 'emplace') and n not in pb[:1] and '_hashmap' in cn(f, n)]
     ctx.ob('C19.R1.one-insert-per-record', 'constructor', okp and not others,
